@@ -709,6 +709,11 @@ class LibraryParser:
                     break
             ent.conc.append(("select", tgt, sel, alts, others))
             return
+        m = re.fullmatch(r'assert\s+(.+?)(?:\s+report\s+".*")?;', l, re.I)
+        if m:
+            # concurrent assertion = a process sensitive to the signals of its condition (LRM 9.4)
+            ent.conc.append(("cassert", parse_expr(m.group(1), ent.scope, l)))
+            return
         k = split_top(l, "<=")
         if k > 0 and l.endswith(";"):
             te = parse_expr(l[:k], ent.scope, l)
@@ -979,6 +984,7 @@ def elaborate(entities, top=None, clk="clk"):
     top_e = entities[-1] if top is None else by_name[top.lower()]
     d = Design(top_e.name, [], [], [], {}, [], [], None)
     used = set()
+    nassert = [0]
 
     def fresh(base):
         n = base
@@ -1059,6 +1065,14 @@ def elaborate(entities, top=None, clk="clk"):
                 for f, tgt, conv in post:
                     d.conc.append(("assign", tgt, ("f1", FN1[conv], ("name", cren[f]))))
                 continue
+            elif c[0] == "cassert":
+                e = _subst_expr(c[1], ren, sub)
+                nassert[0] += 1
+                sens = []
+                for n in _names_in(e):
+                    if n not in sens:
+                        sens.append(n)
+                d.conc.append(("proc", f"{prefix}assert__{nassert[0]}", sens, [("assert", e)]))
             elif c[0] == "assign":
                 d.conc.append(("assign", _subst_target(c[1], ren, sub), _subst_expr(c[2], ren, sub)))
             elif c[0] == "select":
